@@ -14,6 +14,7 @@
   aquifer / block quantities, table look-up (TU…), RANDN/RANDU/RRNDN/RRNDU, group wildcards.
 -/
 import OpmVerif.Model.UdqParse
+import OpmVerif.Model.UdqMatch
 
 namespace OpmVerif.Udq
 open OpmVerif.Gen.UdqEnums
@@ -253,14 +254,45 @@ def rankOf (i : Nat) : Nat → List (Nat × α) → Option Nat
   | _, [] => none
   | k, (j, _) :: r => if i = j then some k else rankOf i (k + 1) r
 
+/-- the (index, value) pairs of the defined entries: the vector `ix` of `sortOrder` with the values -/
+def definedIdx (en : List (Nat × Option α)) : List (Nat × α) :=
+  en.filterMap fun x => x.2.map fun y => (x.1, y)
+
+/-- the rank of one entry: undefined stays undefined -/
+def rankAt (sorted : List (Nat × α)) (x : Nat × Option α) : Option Nat :=
+  match x.2 with
+  | none => none
+  | some _ => rankOf x.1 1 sorted
+
+/-- the ranks `sortOrder` hands out, as natural numbers: position (1-based) of each defined
+element in the sorted index vector `ix`; undefined elements have none.  Tie rule of THIS model:
+insertion in input order = stable — what libstdc++'s `std::sort` does for at most 16 elements
+(`_S_threshold`; plain `__insertion_sort`).  Above that size `std::sort` is an introsort whose tie
+order is deterministic but unspecified; there the code is tied to `isSortRank` instead. -/
+def sortRanks (before : α → α → Bool) (vs : List (Option α)) : List (Option Nat) :=
+  (enumFrom 0 vs).map (rankAt (sortBy before (definedIdx (enumFrom 0 vs))))
+
+/-- `result.assign(i, sort_value)`: the rank as a double -/
+def rankEntry (F : Fns α) (e : String × Option α) (r : Option Nat) : String × Option α :=
+  (e.1, r.bind fun k => fin F (F.ofNat k))
+
 /-- `sortOrder`: defined elements get their 1-based rank, undefined stay undefined -/
 def sortSet (F : Fns α) (before : α → α → Bool) (u : USet α) : USet α :=
-  let idx := (enumFrom 0 u.vals).filterMap fun (i, (_, v)) => v.map fun x => (i, x)
-  let sorted := sortBy before idx
-  { u with vals := (enumFrom 0 u.vals).map fun (i, (n, v)) =>
-      (n, match v with
-          | none => none
-          | some _ => (rankOf i 1 sorted).bind fun k => fin F (F.ofNat k)) }
+  ⟨u.vt, List.zipWith (rankEntry F) u.vals (sortRanks before (u.vals.map (·.2)))⟩
+
+/-- SPECIFICATION of a SORTA / SORTD result, whatever the tie order (decidable form, run by the
+driver on the real code's answers for large sets): same length; a rank exactly where the argument
+is defined; every rank 1..n occurs (n = number of defined elements — with n ranks that makes them a
+permutation of 1..n); an element that is strictly `before` another has the smaller rank. -/
+def isSortRank (before : α → α → Bool) (vs : List (Option α)) (rs : List (Option Nat)) : Bool :=
+  let n := (vs.filterMap id).length
+  rs.length == vs.length
+  && (List.zipWith (fun (v : Option α) (r : Option Nat) => v.isSome == r.isSome) vs rs).all id
+  && (List.range' 1 n).all (fun k => (rs.filterMap id).contains k)
+  && (List.zip vs rs).all fun (v, r) => (List.zip vs rs).all fun (v', r') =>
+      match v, r, v', r' with
+      | some x, some k, some y, some k' => !(before x y) || decide (k < k')
+      | _, _, _, _ => true
 
 /-- `UDQUnaryElementalFunction::eval` (`none` = throws) -/
 def elemFn (F : Fns α) (t : TT) (u : USet α) : Except Unit (USet α) :=
@@ -313,35 +345,74 @@ structure Ctx (α : Type) where
   scalarKey : String → Option (Option α)        -- `context.get(key)`; outer none = throws
   wellVar : String → Option (String → Option α)
   groupVar : String → Option (String → Option α)
-  wellsMatching : String → List String           -- `WellMatcher::wells(pattern)`
+  wellsMatching : String → Except Unit (List String)   -- `WellMatcher::wells(pattern)` (`Matcher.matching`)
 
 def firstChar (s : String) : Char := s.toList.headD ' '
 def hasStar (s : String) : Bool := s.toList.contains '*'
 
-/-- `res.assign(wname, value)` for every selected well: last assignment wins, unmatched stay undefined -/
+/-- SPECIFICATION of a selected well set: one entry per name of `all`, in that order, defined
+exactly for the selected names that have a value.  (What `wellSetBy` computes when the names are
+literal — `Proofs/UdqMatch.lean`.) -/
 def wellSetOf (F : Fns α) (vt : VT) (all selected : List String) (get : String → Option α) : USet α :=
   ⟨vt, all.map fun w => (w, if selected.contains w then (get w).bind (fin F) else none)⟩
+
+/-- `UDQSet::assign(wgname, optional<double>)`: the name is used as a PATTERN
+(`shmatch(wgname, element name)`), every matching element is assigned; no match throws -/
+def assignOne (F : Fns α) (vals : List (String × Option α)) (wname : String) (v : Option α) :
+    Except Unit (List (String × Option α)) :=
+  if vals.any (fun e => globS wname e.1) then
+    .ok (vals.map fun e => (e.1, if globS wname e.1 then v.bind (fin F) else e.2))
+  else .error ()
+
+/-- the loop `for (wname : selected) res.assign(wname, get(wname))` -/
+def assignAll (F : Fns α) (get : String → Option α) :
+    List (String × Option α) → List String → Except Unit (List (String × Option α))
+  | vals, [] => .ok vals
+  | vals, s :: ss =>
+    match assignOne F vals s (get s) with
+    | .error e => .error e
+    | .ok vals' => assignAll F get vals' ss
+
+/-- `UDQSet::wells(name, all)` (all undefined) followed by the assignment loop -/
+def wellSetBy (F : Fns α) (vt : VT) (all selected : List String) (get : String → Option α) :
+    Except Unit (USet α) :=
+  match assignAll F get (all.map fun w => (w, none)) selected with
+  | .error e => .error e
+  | .ok vals => .ok ⟨vt, vals⟩
 
 /-- `UDQASTNode::eval_expression` -/
 def evalExpr (F : Fns α) (ctx : Ctx α) (name : String) (sel : List String) : Except Unit (USet α) :=
   match firstChar name with
   | 'W' =>
     match ctx.wellVar name with
-    | none => if ctx.wells.isEmpty ∧ sel.isEmpty then .ok ⟨.well, []⟩ else .error ()
-    | some get =>
+    | none =>
+      -- `get_well_var` throws for an unregistered variable — when it is called
       match sel with
-      | [] => .ok (wellSetOf F .well ctx.wells ctx.wells get)
+      | [] => if ctx.wells.isEmpty then .ok ⟨.well, []⟩ else .error ()
       | p :: _ =>
         if hasStar p then
-          let ws := ctx.wellsMatching p
-          if ws.all ctx.wells.contains then .ok (wellSetOf F .well ctx.wells ws get) else .error ()
+          match ctx.wellsMatching p with
+          | .ok [] => .ok ⟨.well, ctx.wells.map fun w => (w, none)⟩
+          | _ => .error ()
+        else .error ()
+    | some get =>
+      match sel with
+      | [] => wellSetBy F .well ctx.wells ctx.wells get
+      | p :: _ =>
+        if hasStar p then
+          match ctx.wellsMatching p with
+          | .error e => .error e
+          | .ok ws => wellSetBy F .well ctx.wells ws get
         else .ok (USet.scalar F (get p))
   | 'G' =>
     match ctx.groupVar name with
-    | none => if ctx.groups.isEmpty ∧ sel.isEmpty then .ok ⟨.group, []⟩ else .error ()
+    | none =>
+      match sel with
+      | [] => if ctx.groups.isEmpty then .ok ⟨.group, []⟩ else .error ()
+      | _ :: _ => .error ()
     | some get =>
       match sel with
-      | [] => .ok (wellSetOf F .group ctx.groups ctx.groups get)
+      | [] => wellSetBy F .group ctx.groups ctx.groups get
       | p :: _ => if hasStar p then .error () else .ok (USet.scalar F (get p))
   | 'F' =>
     match ctx.scalarKey name with
